@@ -17,32 +17,32 @@ from vlib import *
 PID = "C19"
 INVS = "TypeOK MutexOK OwnerOK Exclusive IdleDisjoint Conservation ReuseOK ReuseTight DataIntact"
 ACTIONS = ["GetCall", "GetLock", "GetPop", "GetCreateBegin", "GetCreateEnd", "GetCreateFail", "GetReturn", "Use",
-           "DropCall", "DropLock", "DropPush", "DropReturn", "PoolReset", "PoolResetToStart", "PoolDrop"]
+           "DropCall", "DropLock", "DropPush", "DropReturn", "Forget", "PoolReset", "PoolResetToStart", "PoolDrop"]
 
 # (cfg, workers); every cfg is a complete (exhaustive) exploration of its instance
 MC = {
-    "quick": [("MC_Pool.cfg", 6), ("MC_Pool_reset.cfg", 3), ("MC_Pool_outside.cfg", 3)],
-    "thorough": [("MC_Pool_thorough.cfg", 8), ("MC_Pool_thorough4.cfg", 6), ("MC_Pool_reset_thorough.cfg", 6),
-                 ("MC_Pool_outside_thorough.cfg", 6), ("MC_Pool.cfg", 4), ("MC_Pool_reset.cfg", 2),
-                 ("MC_Pool_outside.cfg", 2)],
+    "quick": [("MC_Pool.cfg", 6), ("MC_Pool_reset.cfg", 3), ("MC_Pool_outside.cfg", 3), ("MC_Pool_forget.cfg", 2)],
+    "thorough": [("MC_Pool_thorough4.cfg", 8), ("MC_Pool_thorough.cfg", 6), ("MC_Pool_reset_thorough.cfg", 3),
+                 ("MC_Pool_outside_thorough.cfg", 3), ("MC_Pool_forget_thorough.cfg", 3), ("MC_Pool_forget_thorough3.cfg", 3),
+                 ("MC_Pool.cfg", 2), ("MC_Pool_reset.cfg", 2), ("MC_Pool_outside.cfg", 2), ("MC_Pool_forget.cfg", 2)],
 }
-# schedule emission: (spec, threads, rounds, poolops, mayfail, simulate-num or None)
+# schedule emission: (spec, threads, rounds, poolops, mayfail, mayforget, simulate-num or None)
 EMIT = {
-    "quick": [("PSpec", "{1, 2}", 2, 0, "TRUE", None), ("PSpec", "{1, 2, 3}", 1, 0, "TRUE", None),
-              ("PSpec", "{1, 2}", 1, 1, "TRUE", None), ("SSpec", "{1, 2, 3}", 3, 2, "TRUE", 120)],
-    "thorough": [("PSpec", "{1, 2}", 2, 0, "TRUE", None), ("PSpec", "{1, 2, 3}", 1, 0, "TRUE", None),
-                 ("PSpec", "{1, 2}", 1, 1, "TRUE", None), ("PSpec", "{1, 2}", 3, 0, "FALSE", None),
-                 ("PSpec", "{1, 2}", 2, 1, "FALSE", None), ("PSpec", "{1, 2, 3}", 1, 1, "FALSE", None),
-                 ("PSpec", "{1, 2}", 1, 2, "TRUE", None),
-                 ("SSpec", "{1, 2, 3}", 3, 2, "TRUE", 2500), ("SSpec", "{1, 2, 3, 4}", 2, 1, "TRUE", 1200),
-                 ("SSpec", "{1, 2}", 4, 3, "TRUE", 800)],
+    "quick": [("PSpec", "{1, 2}", 2, 0, "TRUE", "FALSE", None), ("PSpec", "{1, 2, 3}", 1, 0, "TRUE", "TRUE", None),
+              ("PSpec", "{1, 2}", 1, 1, "TRUE", "FALSE", None), ("SSpec", "{1, 2, 3}", 3, 2, "TRUE", "TRUE", 120)],
+    "thorough": [("PSpec", "{1, 2}", 2, 0, "TRUE", "TRUE", None), ("PSpec", "{1, 2, 3}", 1, 0, "TRUE", "TRUE", None),
+                 ("PSpec", "{1, 2}", 1, 1, "TRUE", "TRUE", None), ("PSpec", "{1, 2}", 3, 0, "FALSE", "FALSE", None),
+                 ("PSpec", "{1, 2}", 2, 1, "FALSE", "FALSE", None), ("PSpec", "{1, 2, 3}", 1, 1, "FALSE", "FALSE", None),
+                 ("PSpec", "{1, 2}", 1, 2, "TRUE", "FALSE", None),
+                 ("SSpec", "{1, 2, 3}", 3, 2, "TRUE", "TRUE", 2500), ("SSpec", "{1, 2, 3, 4}", 2, 1, "TRUE", "TRUE", 1200),
+                 ("SSpec", "{1, 2}", 4, 3, "TRUE", "TRUE", 800)],
 }
 FREE_RUNS = {"quick": 40, "thorough": 600}
 
 EXPECT_POINT = {"GetCall": ("get_want",), "GetLock": ("get_cs",), "GetPop": ("get_post",), "GetCreateBegin": ("get_create",),
                 "GetCreateEnd": ("get_post",), "GetCreateFail": ("idle", "done"), "GetReturn": ("holding",),
                 "Use": ("used",), "DropCall": ("drop_want",), "DropLock": ("drop_cs",), "DropPush": ("drop_post",),
-                "DropReturn": ("idle", "done")}
+                "DropReturn": ("idle", "done"), "Forget": ("idle", "done")}
 MAIN_OPS = {"PoolReset": "reset", "PoolResetToStart": "reset_to_start", "PoolDrop": "drop"}
 
 _COV = re.compile(r"^<(\w+) line \d+, col \d+ to line \d+, col \d+ of module Pool(?: \([\d ]+\))?>: (\d+):(\d+)", re.M)
@@ -103,12 +103,12 @@ def collect_mc(futs):
 # ------------------------------------------------------------------------------------------------
 
 def _emit_one(args):
-    k, (spec, threads, rounds, poolops, mayfail, sim), sd, thorough = args
+    k, (spec, threads, rounds, poolops, mayfail, mayforget, sim), sd, thorough = args
     cfg = ".gen_pool_emit_%d_%d.cfg" % (os.getpid(), k)
     with open(os.path.join(SPEC, cfg), "w") as f:
         f.write("SPECIFICATION %s\nCONSTANTS\n    Threads = %s\n    MaxRounds = %d\n    MaxChunks = 100\n"
-                "    MaxPoolOps = %d\n    CreateUnderLock = TRUE\n    MayFail = %s\nINVARIANT Emit\n"
-                % (spec, threads, rounds, poolops, mayfail))
+                "    MaxPoolOps = %d\n    CreateUnderLock = TRUE\n    MayFail = %s\n    MayForget = %s\nINVARIANT Emit\n"
+                % (spec, threads, rounds, poolops, mayfail, mayforget))
     try:
         if sim:
             r = tlc("MC_PoolSched", cfg, workers=1, timeout=2400 if thorough else 600, simulate=sim, depth=1500,
@@ -126,6 +126,7 @@ def _emit_one(args):
         raise ToolError("schedule emission %s %s produced nothing" % (spec, threads))
     nthreads = threads.count(",") + 1
     return {"spec": spec, "threads": nthreads, "rounds": rounds, "poolops": poolops, "mayfail": mayfail == "TRUE",
+            "mayforget": mayforget == "TRUE",
             "simulate": sim, "exhaustive": sim is None, "schedules": len(hists), "distinct_states": r.distinct,
             "wall_s": round(r.wall, 1)}, hists
 
@@ -162,6 +163,8 @@ def schedule_to_input(run, nthreads, hist, settings):
             vias[t][cur_round[t]] |= 1          # only the try_ variants return Err; the others would abort the process
         elif label == "Use" and x == 1:
             tok += "B"
+        elif label == "Forget":
+            tok += "L"                          # mem::forget(guard) instead of dropping it
         steps.append(tok)
         expect.append((phase, t, label))
     if steps:   # behaviour not closed by PoolDrop (cannot happen for emitted schedules)
@@ -598,7 +601,7 @@ def check_c19(tier):
         "the order of critical sections is the sequence number taken inside the POOL_LOCK_HELD hook (pool mutex held); no clock is used",
         "'exactly as the single-arena operations do' is observed against a standalone Bump (twin) fed the same allocations, "
         "plus an instrumented base allocator (grants, frees, double frees, leaks)",
-        "at most 8 threads per recorded run (PoolTrace.cfg); mem::forget of a guard is not exercised",
+        "at most 8 threads per recorded run (PoolTrace.cfg)",
     ])
     if rc == 0:
         shutil.rmtree(wd, ignore_errors=True)
